@@ -16,7 +16,10 @@ use wirefilter::ParserSettings;
 pub const ID: &str = "C11";
 
 /// (text, quantifiable)
-const ATOMS: [(&str, bool); 11] = [
+const ATOMS: [(&str, bool); 13] = [
+    // an escaped quote inside a class must reach the engine unchanged
+    ("[\\\"]", true),
+    ("[a\\\"]", true),
     ("a", true),
     ("b", true),
     (".", true),
